@@ -14,9 +14,9 @@ CMDS = {
     'NA0': ('(assert (! p :named a))', 'named', ('a', 'p', 'p')),
     'NA1': ('(assert (! (not p) :named a))', 'named', ('a', '(not p)', '(not p)')),
     'NC': ('(assert (! (or (not p) q) :named c))', 'named', ('c', '(or (not p) q)', '(or (not p) q)')),
-    'NB': ('(assert (or (! (not q) :named b) r))', 'nested', ('b', '(not q)', '(or (not q) r)')),
+    'NB': ('(assert (or (! p :named b) r))', 'nested', ('b', 'p', '(or p r)')),            # a second, nested, name for the term p
+    'ND': ('(assert (! p :named d))', 'named', ('d', 'p', 'p')),                              # a second top-level name for the term p
     'UN': ('(assert p)', 'plain', 'p'),
-    'UR': ('(assert (not r))', 'plain', '(not r)'),
     'DEF': ('(define-fun f ((x Bool)) Bool (or x s))', 'def', ('f', '(or %s s)')),
     'DEF2': ('(define-fun f ((x Bool)) Bool (and x (not s)))', 'def', ('f', '(and %s (not s))')),
     'USE': ('(assert (f (not q)))', 'use', ('f', '(not q)')),
@@ -30,8 +30,8 @@ ALPHA = list(CMDS.keys())
 def enumerate_hist(L):
     out = []
     def rec(seq, depth):
-        if seq and seq[-1] in ('check', 'core', 'asg'): out.append(tuple(seq))
-        if len(seq) == L: return
+        # every response of every command is judged, so only the maximal sequences are run (each covers all its prefixes)
+        if len(seq) == L: out.append(tuple(seq)); return
         for c in ALPHA:
             if c == 'pop' and depth == 0: continue
             if c in ('core', 'asg') and 'check' not in seq: continue
@@ -104,7 +104,9 @@ def task(t):
         sc = Scope(gdecl)
         last_check = None; popped_unsat = False; unsat_seen_depth = None
         def viol(sym, what, pos):
-            rec = {'logic': 'QF_UF', 'options': ['global-declarations'] if gdecl else [], 'symptom': sym, 'input_class': 'unsat_frame_popped' if popped_unsat else 'plain',
+            nm_ = sc.names()
+            two = len(set(v[0] for v in nm_.values())) < len(nm_)     # one term carries two names that are in scope
+            rec = {'logic': 'QF_UF', 'options': ['global-declarations'] if gdecl else [], 'symptom': sym, 'input_class': 'unsat_frame_popped' if popped_unsat else ('term_with_two_names' if two else 'plain'),
                    'what': ('after %s: %s' % (','.join(hist[:pos + 1]), what))[:400]}
             res['violations'].append((rec, script, 'smt2'))
         for pos, c in enumerate(hist):
@@ -179,7 +181,7 @@ def run(prop, tier):
                      'distinct = distinct (mode, assertion stack, names in scope) at a check-sat')
     chk.assumptions = ['the reference scope machine is SMT-LIB 2.6 scoping of :named and define-fun (global-declarations: both persist)']
     runner.build('rel'); runner.harness('rel', 'osmt_worker')
-    L = 6 if tier == "quick" else 7
+    L = 5 if tier == "quick" else 6
     n = 16
     for g in (False, True):
         chk.run_stage('histories L<=%d, global-declarations %s' % (L, g), [(L, g, s, n) for s in range(n)], task)
